@@ -7,6 +7,7 @@ import (
 	"github.com/hattya/go.sh/interp"
 	"github.com/hattya/go.sh/parser"
 	"io"
+	"math/rand/v2"
 	"strings"
 
 	"github.com/hattya/go.sh/ast"
@@ -278,12 +279,13 @@ func c18Exec(c *core.Ctx, cs prCase) {
 		}
 		cmds2, _, err2 := parseAll("c18", t1)
 		if err2 != nil {
-			c.Skip("printed text rejected (C05's business)")
+			// no fix-point without a second print: the normal form has to be a program
+			c.Violation("not-a-fix-point", key, "the printed text is accepted and prints as itself", "the printed text is rejected: "+err2.Error(), t1)
 			continue
 		}
 		if skel.Cmds(cmds2, skel.Normalised) != skel.Cmds(cmds, skel.Normalised) {
-			c.Skip("printed text is a different program (C05's business)")
-			continue
+			// (which program it is, is C05's business; whether it prints as itself is judged below)
+			c.Count("printed-text-is-a-different-program", 1)
 		}
 		t2, perr2 := printAll(&cfg, cmds2)
 		c.Eval(1)
@@ -473,6 +475,64 @@ func walkRedirs(cmds []ast.Command, f func(*ast.Redir)) {
 	list(cmds)
 }
 
+// prNestedHeredocs writes one command line that carries 1-3 here-documents
+// (on one command, over a pipeline, an and-or list or a brace group); a body
+// holds text, expansions and, while depth allows, a multi-line command
+// substitution whose only line is built the same way.  Delimiters are unique.
+func prNestedHeredocs(r *rand.Rand, depth int, ctr *int) string {
+	m := 1 + r.IntN(3)
+	var delims []string
+	for j := 0; j < m; j++ {
+		*ctr++
+		delims = append(delims, fmt.Sprintf("D%d", *ctr))
+	}
+	var line strings.Builder
+	form := r.IntN(4)
+	if form == 3 {
+		line.WriteString("{ ")
+	}
+	for j, d := range delims {
+		op := "<<"
+		if r.IntN(4) == 0 {
+			op = "<<-"
+		}
+		switch {
+		case j == 0:
+			line.WriteString("cat " + op + d)
+		case form == 0:
+			line.WriteString(" " + op + d)
+		case form == 1:
+			line.WriteString(" | cat " + op + d)
+		case form == 2:
+			line.WriteString(" && cat " + op + d)
+		default:
+			line.WriteString("; cat " + op + d)
+		}
+	}
+	if form == 3 {
+		line.WriteString("; }")
+	}
+	line.WriteByte('\n')
+	for _, d := range delims {
+		for k := r.IntN(3); k > 0; k-- {
+			switch x := r.IntN(6); {
+			case x == 0:
+				line.WriteString("text " + d + " x\n")
+			case x == 1:
+				line.WriteString("$x ${y:-z}\n")
+			case x <= 3 && depth > 1:
+				line.WriteString([]string{"", "pre "}[r.IntN(2)] + "$(\n" + prNestedHeredocs(r, depth-1, ctr) + ")" + []string{"", " post"}[r.IntN(2)] + "\n")
+			case x == 4:
+				line.WriteString("\n")
+			default:
+				line.WriteString("line\n")
+			}
+		}
+		line.WriteString(d + "\n")
+	}
+	return line.String()
+}
+
 func prGen(kind string) func(c *core.Ctx) {
 	return func(c *core.Ctx) {
 		n := c.Pick(1500, 60000)
@@ -515,6 +575,21 @@ func prGen(kind string) func(c *core.Ctx) {
 				core.Do(c, cs, c18Exec)
 			}
 		}
+		// here-documents nested through command substitutions in here-document bodies,
+		// several per command line on every level
+		for i, n := 0, c.Pick(300, 20000); i < n; i++ {
+			r := c.Rand("nested-hd", int64(i))
+			ctr := 0
+			cs := prCase{Src: prNestedHeredocs(r, 1+r.IntN(3), &ctr), Kind: "nested-heredocs"}
+			if kind == "c05" {
+				core.Do(c, cs, c05Exec)
+			} else {
+				if i%4 == 0 {
+					cs.Kind = "writer-all-k"
+				}
+				core.Do(c, cs, c18Exec)
+			}
+		}
 		// dedicated shapes, written as source
 		for _, s := range prDedicated {
 			cs := prCase{Src: s, Kind: "dedicated"}
@@ -551,6 +626,7 @@ var prDedicated = []string{
 	"cat <<E; ((\n1\n))\nbody\nE\n", "cat <<E; echo $((\n1\n))\nbody\nE\n", "cat <<E $((\n1 +\n2))\nbody\nE\n",
 	// arithmetic text is kept character for character, whatever its parentheses look like
 	"(( ) ) ((a))\n", "(()a)((1))\n", "echo $(( 1 ) ) ((2))\n", "(((1)) ); ((2))\n", "(( 1 ) + ( 2 ))\n",
+	"(( (1) + ((a)) ))\n", "(( ((a)) ))\n", "echo $(( (1) )) ((2))\n", "(( ((1)) )); ((2))\n", "(( ( 1 ) + ( 2 ) ))\n", "echo $(( ((1)) + ((2)) ))$(( (3) ))\n",
 	// "((" is the arithmetic command at every depth: a subshell or $( ) that starts with one is written with a blank
 	"( ((1)) )\n", "( ((1)) | a )\n", "x=$( ((1)))\n", "echo `((1))` $( ((2)); b )\n", "( ! ((1)) )\n", "( ( ((1)) ) )\n", "( ((1)); ((2)) ) >f\n", "f() ( ((1)) )\n",
 	"( case x in a ) ;; esac ) ; ((1))\n", "( case x in a) ((1)) ;; (b) ( ((2)) ) ;; esac; ((3)) )\n", "( (( $( (a) ) + $( ((1)) ) )) )\n",
